@@ -18,6 +18,12 @@ oracle   : descriptor table of the process before/after + per-socket state: exac
 client   : api "client" (vlib/c19_client.py, oracle only): AsyncTCPNetworkClient and AsyncUDPNetworkClient on real loopback
            sockets, resolver gated for the remote and the local name; close / context exit / cancellation at every
            position of the connect, plain connects with several candidate addresses and a local address by name.
+tls      : api "tls" (vlib/c19_tls.py, oracle only): AsyncTCPNetworkClient(ssl=...) = the race, then the TLS handshake on the
+           winner, against a harness server which is silent / a real SSLObject peer answering at once or piece by piece /
+           hostile; task.cancel, backend.timeout / move_on_after, aclose / __aexit__ from another task at every loop turn
+           between "TCP connected" and "handshake finished" (also twice), handshake failures and time-outs, plain connects:
+           the failure is reported and every socket is closed a bounded number of loop turns later (server side sees EOF,
+           descriptor table back to the baseline, garbage collector disabled); a successful connect leaves one socket.
 """
 from __future__ import annotations
 
@@ -55,6 +61,8 @@ TRUSTED_BASE = [
     "client layer: real asyncio loop and loopback sockets (127.0.0.1, ::1 when usable), AsyncIOBackend subclass gating "
     "getaddrinfo; kernel loopback semantics (refused connect on a bound non-listening port, EOF visible to the peer after "
     "close, UDP connect() to 255.255.255.255 failing at once: probed)",
+    "tls layer: the same plus the ssl module (OpenSSL) on both sides, the committed self-signed certificate (vlib/c14_certs), "
+    "a harness server task per accepted connection on the same loop (one loop turn = one scheduling step for both sides)",
 ]
 ASSUMPTIONS = [
     "connect_socket either returns, raises OSError, raises another exception, or is cancelled; it does not close or "
@@ -70,7 +78,11 @@ RULE = (
     "real); plus client-layer cases: protocol tcp/udp x candidate addresses (ok / refused, IPv4 / IPv6) x local address "
     "by name (bindable / not, both families) x starter (wait_connected / send_packet / recv_packet / async with) x "
     "interruption (aclose / __aexit__ / task cancel / none) x loop turn of the interruption x turns at which the resolver "
-    "answers for the remote and the local name"
+    "answers for the remote and the local name; plus TLS cases: candidate addresses x server handshake behaviour (silent / "
+    "normal / piece by piece / garbage / alert / close / reset / close mid-flight / close at accept) x client context (no "
+    "verification / verified / host name mismatch / untrusted) x TLS 1.2 / 1.3 x interruption (task cancel / timeout / "
+    "move_on_after / aclose / __aexit__ / none, optionally a second one) x anchor (start / accepted / ClientHello received) "
+    "+ loop turn x handshake timeout"
 )
 
 # ----------------------------------------------------------------------------------------------
@@ -80,6 +92,9 @@ def run_real(case: dict) -> list[str]:
     if case.get("api") == "client":
         from vlib import c19_client
         return c19_client.run_client_case(case)
+    if case.get("api") == "tls":
+        from vlib import c19_tls
+        return c19_tls.run_tls_case(case)
     return env.run_case(case)
 
 
@@ -95,8 +110,8 @@ def real_for_diff(case: dict, real: list[str]) -> list[str]:
 
 
 def model_input(case: dict, real: list[str]):
-    if case.get("api") == "client":
-        return None       # client layer (AsyncTCPNetworkClient closing / cancelling a connect in progress): oracle only
+    if case.get("api") in ("client", "tls"):
+        return None       # client layers (AsyncTCPNetworkClient closing / cancelling a connect in progress, TLS twin): oracle only
     if case.get("mode", "tracked") != "tracked":
         return None       # genuine socket module: socket()/bind()/close() are not observable line by line
     locs, addrs = _cfg_tokens(case)
@@ -233,6 +248,11 @@ def oracle(case: dict, real: list[str]) -> str | None:
         if any(ln.startswith("harness-exc") for ln in real):
             return f"run did not complete: {real[-1]}"
         return c19_client.oracle(case, real)
+    if case.get("api") == "tls":
+        from vlib import c19_tls
+        if any(ln.startswith("harness-exc") for ln in real):
+            return f"run did not complete: {real[-1]}"
+        return c19_tls.oracle(case, real)
     if any(ln.startswith(("harness-exc", "stalled")) for ln in real):
         return f"run did not complete: {real[-1]}"
     d = _parse(real)
@@ -316,6 +336,8 @@ def oracle(case: dict, real: list[str]) -> str | None:
 def nontrivial(case: dict, real: list[str]) -> str | None:
     if case.get("api") == "client":
         return f"client/{case.get('proto', 'tcp')}/{case['how']}/{case.get('then', 'none')}"
+    if case.get("api") == "tls":
+        return f"tls/{case.get('srv', 'silent')}/{case['how']}/{case.get('anchor', 'start') if case['how'] != 'none' else '-'}"
     d = _parse(real)
     # overlapping attempts: a conn while another one is pending
     pending, overlap = set(), False
@@ -373,6 +395,10 @@ def _drop_addr(case: dict, i: int) -> dict:
 
 
 def shrink(case: dict):
+    if case.get("api") == "tls":
+        from vlib import c19_tls
+        yield from c19_tls.shrink(case)
+        return
     if case.get("api") == "client":
         if len(case["addrs"]) > 1:
             for i in range(len(case["addrs"])):
@@ -462,6 +488,8 @@ def corpus() -> list[dict]:
     cs.append({**base, "api": "seq", "addrs": [A(4, "err"), A(6, "hang")], "delay": None, "script": [[], [["c", 0]], [], [["x"]]]})
     from vlib import c19_client
     cs.extend(c19_client.corpus())
+    from vlib import c19_tls
+    cs.extend(c19_tls.corpus())
     return cs
 
 
@@ -572,9 +600,11 @@ def _local_case(rng) -> dict:
 
 
 def generate(rng, tier: str, boost: int):
-    from vlib import c19_client
+    from vlib import c19_client, c19_tls
     for _ in range((500 if tier == "quick" else 4000) * boost):
         yield c19_client.gen_case(rng)
+    for _ in range((400 if tier == "quick" else 4000) * boost):
+        yield c19_tls.gen_case(rng)
     for _ in range((600 if tier == "quick" else 4000) * boost):
         yield _local_case(rng)
     n = (5000 if tier == "quick" else 30000) * boost
@@ -606,9 +636,11 @@ def generate(rng, tier: str, boost: int):
 
 
 def extra_coverage(stats) -> dict:
-    from vlib import c19_client
+    from vlib import c19_client, c19_tls
     return {"lost_cancel_cases": _lost["n"],
             "client_lost_cancel_in_known_window": c19_client.COUNT["lost_cancel_known_window"],
+            "tls_layer": "api tls = AsyncTCPNetworkClient(ssl=...) on real loopback sockets against a harness TLS peer: oracle only",
+            "tls_runs": dict(c19_tls.COUNT),
             "client_layer": "api client = AsyncTCPNetworkClient / AsyncUDPNetworkClient on real loopback sockets with a gated "
             "resolver (remote and local name): oracle only",
             "model_scope": "api race and seq in mode tracked are replayed on the Lean model; mode real (genuine socket "
